@@ -393,6 +393,8 @@ def run(ctx):  # noqa: C901, PLR0912, PLR0915
 
     from . import common
     common.version_group_setters_total(ctx, 'C04.R1')
+    ctx.borrow('C05', {'C05.R1'}, 'C04.R3', contains=['child order', ' vs '], why='what a commit can contain is written in the element order of the schema')
+    common.writers_omit_only_none(ctx, 'C04.R5')
     ctx.borrow('C01', {'C01.R1'}, 'C04.R2', contains=['condition', 'chain', 'hands over', '_updates'], why='every kind of committed state is reported')
     from .c18 import exponent_never_written
     exponent_never_written(ctx, 'C04.R3')   # what a commit can contain is writable as a schema-valid report
